@@ -160,9 +160,8 @@ class Block(Node):
         if hasattr(self, 'inner'):
             if self.name.subparse and len(self.inner) > 0:  # @media
                 inner = ''.join([p.fmt(fills) for p in self.inner])
-                inner = inner.replace(fills['nl'],
-                                      fills['nl'] + fills['tab']).rstrip(
-                                          fills['tab'])
+                inner = self._indent(inner, fills['nl'],
+                                     fills['tab']).rstrip(fills['tab'])
                 if not fills['nl']:
                     inner = inner.strip()
                 fills.update({
@@ -172,6 +171,26 @@ class Block(Node):
                 out.append(f % fills)
             else:
                 out.append(''.join([p.fmt(fills) for p in self.inner]))
+        return ''.join(out)
+
+    @staticmethod
+    def _indent(text, nl, tab):
+        """ Indent the lines of `text` by one `tab`: every line break that is
+        not inside a string literal is followed by `tab`.
+        """
+        if not nl or not tab:
+            return text
+        out = []
+        quote = None
+        for c in text:
+            out.append(c)
+            if quote:
+                if c == quote:
+                    quote = None
+            elif c in '"\'':
+                quote = c
+            elif c == nl:
+                out.append(tab)
         return ''.join(out)
 
     def copy(self):
